@@ -455,15 +455,16 @@ func (i *interpreter) makeSliceSize(lenV, capV value, tElt types.Type, instr *ss
 		if !ok {
 			return
 		}
-		w := s.t.S.W
-		// negative or absurdly large: panics in the real runtime
-		lim := uint64(1<<47) / uint64(esz)
-		var bad *Term
+		// compare in 64 bits (the runtime converts the operand to int)
+		var t *Term
 		if kindSigned(s.k) {
-			bad = st.Or(st.BVCmp("bvslt", s.t, st.BVConst(0, w)), st.BVCmp("bvslt", st.BVConst(lim, w), s.t))
+			t = st.SExt(s.t, 64)
 		} else {
-			bad = st.BVCmp("bvult", st.BVConst(lim, w), s.t)
+			t = st.ZExt(s.t, 64)
 		}
+		// negative or beyond maxAlloc (2^48 on linux/amd64): panics in the real runtime
+		lim := uint64(1<<48) / uint64(esz)
+		bad := st.Or(st.BVCmp("bvslt", t, st.BVConst(0, 64)), st.BVCmp("bvslt", st.BVConst(lim, 64), t))
 		if i.decide(bad) {
 			i.rtPanic("runtime error: makeslice: " + what + " out of range")
 		}
@@ -473,10 +474,10 @@ func (i *interpreter) makeSliceSize(lenV, capV value, tElt types.Type, instr *ss
 			if remain < 0 {
 				remain = 0
 			}
-			over := st.BVCmp("bvult", st.BVConst(uint64(remain)/uint64(esz), w), s.t)
+			over := st.BVCmp("bvslt", st.BVConst(uint64(remain)/uint64(esz), 64), t)
 			if i.decide(over) {
 				i.abort("alloc", fmt.Sprintf("make([]%s, n) with n*%d bytes beyond the allocation budget (%d bytes) at %s",
-					tElt, esz, i.cfg.AllocBudget, i.prog.Fset.Position(instr.Pos())))
+					types.TypeString(tElt, func(p *types.Package) string { return p.Name() }), esz, i.cfg.AllocBudget, i.prog.Fset.Position(instr.Pos())))
 			}
 		}
 	}
@@ -489,13 +490,16 @@ func (i *interpreter) makeSliceSize(lenV, capV value, tElt types.Type, instr *ss
 	if !sameLC {
 		n = i.concretize(lenV, "make len")
 	}
-	if n < 0 || n > 1<<40 {
+	if n < 0 || n > (1<<48)/esz {
 		i.rtPanic("runtime error: makeslice: len out of range")
 	}
-	if c < n || c > 1<<40 {
+	if c < n || c > (1<<48)/esz {
 		i.rtPanic("runtime error: makeslice: cap out of range")
 	}
 	i.account(c*esz, instr.Pos())
+	if c > 1<<24 {
+		i.abort("alloc", fmt.Sprintf("make of %d elements at %s", c, i.prog.Fset.Position(instr.Pos())))
+	}
 	return int(n), int(c)
 }
 
